@@ -7,43 +7,9 @@
 -/
 import YaraModel.Model.Limits
 set_option linter.unusedVariables false
+set_option linter.unusedSectionVars false
 namespace YaraModel.Limits
 open YaraModel.Gen.Limits
-
-/-! ### guard lemmas -/
-
-theorem capReached_spec (count MAX : Nat) (h : count ≤ MAX) : capReached count MAX = true ↔ count = MAX := by
-  simp [capReached, matchCapCmp, Cmp.eval] <;> omega
-
-theorem pushOk_spec (sp cap : Nat) (h : sp ≤ cap) : pushOk sp cap = true ↔ sp < cap := by
-  simp [pushOk, pushCmp, Cmp.eval] <;> omega
-
-theorem loopFull_spec (d MAX : Nat) (h : d ≤ MAX) : loopFull d MAX = true ↔ d = MAX := by
-  simp [loopFull, loopNestCmp, Cmp.eval] <;> omega
-
-theorem includeFull_spec (p MAX : Nat) (h : p ≤ MAX) : includeFull p MAX = true ↔ p = MAX := by
-  simp [includeFull, includeDepthCmp, Cmp.eval] <;> omega
-
-theorem splitFull_spec (n MAX : Nat) (h : n ≤ MAX) : splitFull n MAX = true ↔ n = MAX := by
-  simp [splitFull, splitIdCmp, Cmp.eval] <;> omega
-
-theorem fiberFull_spec (n MAX : Nat) (h : n ≤ MAX) : fiberFull n MAX = true ↔ n = MAX := by
-  simp [fiberFull, fiberCmp, Cmp.eval] <;> omega
-
-theorem stringsOver_spec (n M : Nat) : stringsOver n M = true ↔ n > M := by
-  simp [stringsOver, stringsPerRuleCmp, Cmp.eval] <;> omega
-
-theorem identTooLong_spec (n : Nat) : identTooLong n = true ↔ n > docIdentMax := by
-  simp [identTooLong, identCmp, identLimit, docIdentMax, Cmp.eval] <;> omega
-
-theorem vmTick_spec (N cycle : Nat) (h : cycle < N) :
-    vmTick N cycle = if cycle + 1 = N then (0, true) else (cycle + 1, false) := by
-  unfold vmTick
-  by_cases he : cycle + 1 = N
-  · have : vmCycleCmp.eval (cycle + 1) N = true := by simp [vmCycleCmp, Cmp.eval] <;> omega
-    rw [if_pos this, if_pos he]
-  · have : ¬ vmCycleCmp.eval (cycle + 1) N = true := by simp [vmCycleCmp, Cmp.eval] <;> omega
-    rw [if_neg this, if_neg he]
 
 /-! ### match list -/
 
@@ -136,6 +102,17 @@ theorem insertDesc_offsets (m : Match) (rep : Bool) (l : List Match) (o : Nat) :
       · simp only [List.map_cons, List.mem_cons, ih]
         constructor <;> intro h <;> rcases h with h | h | h <;> simp_all
 
+variable {G : Guards} (hG : G.Sound)
+include hG
+
+theorem vmTick_spec (N cycle : Nat) (h : cycle < N) :
+    vmTick G N cycle = if cycle + 1 = N then (0, true) else (cycle + 1, false) := by
+  unfold vmTick
+  by_cases he : cycle + 1 = N
+  · rw [if_pos ((hG.cycle cycle N h).2 he), if_pos he]
+  · have : ¬ G.cycleHit (cycle + 1) N = true := fun hp => he ((hG.cycle cycle N h).1 hp)
+    rw [if_neg this, if_neg he]
+
 /-! ### scan-level invariants -/
 
 /-- Invariant of a running scan: counts below the cap, every warned string is muted, no string warned twice. -/
@@ -145,12 +122,12 @@ structure SInv (MAX : Nat) (s : SState) : Prop where
   nodup : s.warned.Nodup
 
 theorem addMatch_count_le (MAX : Nat) (m : Match) (rep : Bool) (l : MList) (h : l.count ≤ MAX) :
-    (addMatch MAX m rep l).1.count ≤ MAX := by
+    (addMatch G MAX m rep l).1.count ≤ MAX := by
   unfold addMatch
   split
   · exact h
   · rename_i hc
-    have : ¬ l.count = MAX := fun e => hc ((capReached_spec _ _ h).2 e)
+    have : ¬ l.count = MAX := fun e => hc ((hG.cap _ _ h).2 e)
     simp only
     split <;> omega
 
@@ -158,7 +135,7 @@ theorem SInv_init (MAX : Nat) : SInv MAX SState.init :=
   ⟨fun _ => Nat.zero_le _, fun _ h => by simp [SState.init] at h, by simp [SState.init]⟩
 
 theorem verifyStep_inv (MAX : Nat) (cont : Nat → Bool) (s : SState) (e : Ev) (h : SInv MAX s)
-    (hok : (verifyStep MAX cont s e).2 = none) : SInv MAX (verifyStep MAX cont s e).1 := by
+    (hok : (verifyStep G MAX cont s e).2 = none) : SInv MAX (verifyStep G MAX cont s e).1 := by
   unfold verifyStep at hok ⊢
   split
   · exact h
@@ -169,7 +146,7 @@ theorem verifyStep_inv (MAX : Nat) (cont : Nat → Bool) (s : SState) (e : Ev) (
       intro j
       simp only [upd]
       split
-      · have := addMatch_count_le MAX e.m false (s.lists e.sid) (h.bounded _)
+      · have := addMatch_count_le hG MAX e.m false (s.lists e.sid) (h.bounded _)
         rw [heq] at this; exact this
       · exact h.bounded j
     · rename_i heq
@@ -193,7 +170,7 @@ theorem verifyStep_inv (MAX : Nat) (cont : Nat → Bool) (s : SState) (e : Ev) (
         simp [hdis, heq, hc] at hok
 
 theorem scanEvents_inv (MAX : Nat) (cont : Nat → Bool) (evs : List Ev) (s : SState) (h : SInv MAX s)
-    (hok : (scanEvents MAX cont s evs).2 = none) : SInv MAX (scanEvents MAX cont s evs).1 := by
+    (hok : (scanEvents G MAX cont s evs).2 = none) : SInv MAX (scanEvents G MAX cont s evs).1 := by
   induction evs generalizing s with
   | nil => exact h
   | cons e es ih =>
@@ -202,7 +179,7 @@ theorem scanEvents_inv (MAX : Nat) (cont : Nat → Bool) (evs : List Ev) (s : SS
     · rename_i s' heq
       rw [heq] at hok
       simp only at hok
-      have h1 := verifyStep_inv MAX cont s e h (by rw [heq])
+      have h1 := verifyStep_inv hG MAX cont s e h (by rw [heq])
       rw [heq] at h1
       exact ih s' h1 hok
     · rename_i s' err heq
@@ -211,9 +188,9 @@ theorem scanEvents_inv (MAX : Nat) (cont : Nat → Bool) (evs : List Ev) (s : SS
 
 /-- counts stay bounded and warnings stay duplicate-free even in a run that is aborted -/
 theorem verifyStep_weak (MAX : Nat) (cont : Nat → Bool) (s : SState) (e : Ev) (h : SInv MAX s) :
-    (∀ j, ((verifyStep MAX cont s e).1.lists j).count ≤ MAX) ∧ (verifyStep MAX cont s e).1.warned.Nodup := by
-  by_cases hok : (verifyStep MAX cont s e).2 = none
-  · have := verifyStep_inv MAX cont s e h hok
+    (∀ j, ((verifyStep G MAX cont s e).1.lists j).count ≤ MAX) ∧ (verifyStep G MAX cont s e).1.warned.Nodup := by
+  by_cases hok : (verifyStep G MAX cont s e).2 = none
+  · have := verifyStep_inv hG MAX cont s e h hok
     exact ⟨this.bounded, this.nodup⟩
   · unfold verifyStep at hok ⊢
     split
@@ -232,24 +209,24 @@ theorem verifyStep_weak (MAX : Nat) (cont : Nat → Bool) (s : SState) (e : Ev) 
           simp_all
 
 theorem scanEvents_weak (MAX : Nat) (cont : Nat → Bool) (evs : List Ev) (s : SState) (h : SInv MAX s) :
-    (∀ j, ((scanEvents MAX cont s evs).1.lists j).count ≤ MAX) ∧ (scanEvents MAX cont s evs).1.warned.Nodup := by
+    (∀ j, ((scanEvents G MAX cont s evs).1.lists j).count ≤ MAX) ∧ (scanEvents G MAX cont s evs).1.warned.Nodup := by
   induction evs generalizing s with
   | nil => exact ⟨h.bounded, h.nodup⟩
   | cons e es ih =>
     simp only [scanEvents]
     split
     · rename_i s' heq
-      have h1 := verifyStep_inv MAX cont s e h (by rw [heq])
+      have h1 := verifyStep_inv hG MAX cont s e h (by rw [heq])
       rw [heq] at h1
       exact ih s' h1
     · rename_i s' err heq
-      have := verifyStep_weak MAX cont s e h
+      have := verifyStep_weak hG MAX cont s e h
       rw [heq] at this
       exact this
 
 /-- A step on string `i ≠ j` leaves `j`'s list and mute bit alone. -/
 theorem verifyStep_other (MAX : Nat) (cont : Nat → Bool) (s : SState) (e : Ev) (j : Nat) (hne : e.sid ≠ j) :
-    (verifyStep MAX cont s e).1.lists j = s.lists j ∧ (verifyStep MAX cont s e).1.disabled j = s.disabled j := by
+    (verifyStep G MAX cont s e).1.lists j = s.lists j ∧ (verifyStep G MAX cont s e).1.disabled j = s.disabled j := by
   unfold verifyStep
   split
   · exact ⟨rfl, rfl⟩
@@ -263,9 +240,9 @@ theorem verifyStep_other (MAX : Nat) (cont : Nat → Bool) (s : SState) (e : Ev)
 /-- A step on string `j` depends only on `j`'s list and mute bit. -/
 theorem verifyStep_same (MAX : Nat) (cont : Nat → Bool) (s t : SState) (e : Ev)
     (hl : s.lists e.sid = t.lists e.sid) (hd : s.disabled e.sid = t.disabled e.sid) :
-    (verifyStep MAX cont s e).1.lists e.sid = (verifyStep MAX cont t e).1.lists e.sid ∧
-    (verifyStep MAX cont s e).1.disabled e.sid = (verifyStep MAX cont t e).1.disabled e.sid ∧
-    (verifyStep MAX cont s e).2 = (verifyStep MAX cont t e).2 := by
+    (verifyStep G MAX cont s e).1.lists e.sid = (verifyStep G MAX cont t e).1.lists e.sid ∧
+    (verifyStep G MAX cont s e).1.disabled e.sid = (verifyStep G MAX cont t e).1.disabled e.sid ∧
+    (verifyStep G MAX cont s e).2 = (verifyStep G MAX cont t e).2 := by
   unfold verifyStep
   rw [← hd, ← hl]
   split
@@ -280,7 +257,7 @@ theorem verifyStep_same (MAX : Nat) (cont : Nat → Bool) (s t : SState) (e : Ev
 /-! ### bounded counters -/
 
 theorem vmRun_none_iff (cap : Nat) (ops : List StkOp) (sp : Nat) (h : sp ≤ cap) :
-    vmRun cap sp ops = none ↔ peak sp ops > cap := by
+    vmRun G cap sp ops = none ↔ peak sp ops > cap := by
   induction ops generalizing sp with
   | nil => simp [vmRun, peak]; omega
   | cons o os ih =>
@@ -288,9 +265,9 @@ theorem vmRun_none_iff (cap : Nat) (ops : List StkOp) (sp : Nat) (h : sp ≤ cap
     | push =>
       simp only [vmRun, peak]
       by_cases hlt : sp < cap
-      · rw [if_pos ((pushOk_spec sp cap h).2 hlt), ih (sp + 1) (by omega)]
+      · rw [if_pos ((hG.push sp cap h).2 hlt), ih (sp + 1) (by omega)]
         omega
-      · have : ¬ pushOk sp cap = true := fun hp => hlt ((pushOk_spec sp cap h).1 hp)
+      · have : ¬ G.pushOk sp cap = true := fun hp => hlt ((hG.push sp cap h).1 hp)
         simp only [this]
         simp
         omega
@@ -300,7 +277,7 @@ theorem vmRun_none_iff (cap : Nat) (ops : List StkOp) (sp : Nat) (h : sp ≤ cap
       omega
 
 theorem vmRun_some_le (cap : Nat) (ops : List StkOp) (sp sp' : Nat) (h : sp ≤ cap)
-    (hr : vmRun cap sp ops = some sp') : sp' ≤ cap := by
+    (hr : vmRun G cap sp ops = some sp') : sp' ≤ cap := by
   induction ops generalizing sp with
   | nil => simp [vmRun] at hr; omega
   | cons o os ih =>
@@ -309,14 +286,14 @@ theorem vmRun_some_le (cap : Nat) (ops : List StkOp) (sp sp' : Nat) (h : sp ≤ 
       simp only [vmRun] at hr
       split at hr
       · rename_i hp
-        exact ih (sp + 1) (by have := (pushOk_spec sp cap h).1 hp; omega) hr
+        exact ih (sp + 1) (by have := (hG.push sp cap h).1 hp; omega) hr
       · cases hr
     | pop =>
       simp only [vmRun] at hr
       exact ih (sp - 1) (by omega) hr
 
 theorem loopRun_none_iff (MAX : Nat) (evs : List LoopEv) (d : Nat) (h : d ≤ MAX) :
-    loopRun MAX d evs = none ↔ loopPeak d evs > MAX := by
+    loopRun G MAX d evs = none ↔ loopPeak d evs > MAX := by
   induction evs generalizing d with
   | nil => simp [loopRun, loopPeak]; omega
   | cons o os ih =>
@@ -324,9 +301,9 @@ theorem loopRun_none_iff (MAX : Nat) (evs : List LoopEv) (d : Nat) (h : d ≤ MA
     | enter =>
       simp only [loopRun, loopPeak]
       by_cases hlt : d = MAX
-      · rw [if_pos ((loopFull_spec d MAX h).2 hlt)]
+      · rw [if_pos ((hG.loop d MAX h).2 hlt)]
         simp <;> omega
-      · have : ¬ loopFull d MAX = true := fun hp => hlt ((loopFull_spec d MAX h).1 hp)
+      · have : ¬ G.loopFull d MAX = true := fun hp => hlt ((hG.loop d MAX h).1 hp)
         simp only [this]
         rw [if_neg (by simp), ih (d + 1) (by omega)]
         omega
@@ -357,7 +334,7 @@ theorem loopPeak_nested (n d : Nat) :
 
 theorem pushChain_ok_iff (MAX : Nat) (names stack : List String) (hlen : stack.length ≤ MAX)
     (hnd : names.Nodup) (hdisj : ∀ n ∈ names, ¬ n ∈ stack) :
-    (∃ st, pushChain MAX stack names = .ok st ∧ st.length = stack.length + names.length) ↔
+    (∃ st, pushChain G MAX stack names = .ok st ∧ st.length = stack.length + names.length) ↔
       stack.length + names.length ≤ MAX := by
   induction names generalizing stack with
   | nil => simp [pushChain]; exact hlen
@@ -369,9 +346,9 @@ theorem pushChain_ok_iff (MAX : Nat) (names stack : List String) (hlen : stack.l
     rw [hn]
     simp only [Bool.false_eq_true, ↓reduceIte]
     by_cases hfull : stack.length = MAX
-    · rw [if_pos ((includeFull_spec _ _ hlen).2 hfull)]
+    · rw [if_pos ((hG.incl _ _ hlen).2 hfull)]
       simp; omega
-    · have : ¬ includeFull stack.length MAX = true := fun hp => hfull ((includeFull_spec _ _ hlen).1 hp)
+    · have : ¬ G.includeFull stack.length MAX = true := fun hp => hfull ((hG.incl _ _ hlen).1 hp)
       rw [if_neg this]
       simp only
       have hnd' : ns.Nodup := (List.nodup_cons.1 hnd).2
@@ -393,7 +370,7 @@ theorem pushChain_ok_iff (MAX : Nat) (names stack : List String) (hlen : stack.l
 
 theorem pushChain_error_depth (MAX : Nat) (names stack : List String) (hlen : stack.length ≤ MAX)
     (hnd : names.Nodup) (hdisj : ∀ n ∈ names, ¬ n ∈ stack) (hbig : stack.length + names.length > MAX) :
-    pushChain MAX stack names = .error .includeDepth := by
+    pushChain G MAX stack names = .error .includeDepth := by
   induction names generalizing stack with
   | nil => simp at hbig; omega
   | cons n ns ih =>
@@ -404,8 +381,8 @@ theorem pushChain_error_depth (MAX : Nat) (names stack : List String) (hlen : st
     rw [hn]
     simp only [Bool.false_eq_true, ↓reduceIte]
     by_cases hfull : stack.length = MAX
-    · rw [if_pos ((includeFull_spec _ _ hlen).2 hfull)]
-    · have : ¬ includeFull stack.length MAX = true := fun hp => hfull ((includeFull_spec _ _ hlen).1 hp)
+    · rw [if_pos ((hG.incl _ _ hlen).2 hfull)]
+    · have : ¬ G.includeFull stack.length MAX = true := fun hp => hfull ((hG.incl _ _ hlen).1 hp)
       rw [if_neg this]
       simp only
       have hnd' : ns.Nodup := (List.nodup_cons.1 hnd).2
@@ -418,7 +395,7 @@ theorem pushChain_error_depth (MAX : Nat) (names stack : List String) (hlen : st
       exact ih (n :: stack) (by simp; omega) hnd' hdisj' (by simp at hbig ⊢; omega)
 
 theorem pushChain_len_le (MAX : Nat) (names stack st : List String) (hlen : stack.length ≤ MAX)
-    (h : pushChain MAX stack names = .ok st) : st.length ≤ MAX := by
+    (h : pushChain G MAX stack names = .ok st) : st.length ≤ MAX := by
   induction names generalizing stack with
   | nil => simp [pushChain] at h; subst h; exact hlen
   | cons n ns ih =>
@@ -431,54 +408,54 @@ theorem pushChain_len_le (MAX : Nat) (names stack st : List String) (hlen : stac
         · cases heq
         · rename_i hc hfull
           cases heq
-          have hne : stack.length ≠ MAX := fun e => hfull ((includeFull_spec _ _ hlen).2 e)
+          have hne : stack.length ≠ MAX := fun e => hfull ((hG.incl _ _ hlen).2 e)
           exact ih (n :: stack) (by simp; omega) h
     · cases h
 
 /-! ### strings per rule -/
 
-theorem countStrings_none_iff (M k cnt : Nat) (h : cnt ≤ M) : countStrings M cnt k = none ↔ cnt + k > M := by
+theorem countStrings_none_iff (M k cnt : Nat) (h : cnt ≤ M) : countStrings G M cnt k = none ↔ cnt + k > M := by
   induction k generalizing cnt with
   | zero => simp [countStrings]; omega
   | succ k ih =>
     simp only [countStrings]
     by_cases hov : cnt + 1 > M
-    · rw [if_pos ((stringsOver_spec _ _).2 hov)]; simp; omega
-    · have : ¬ stringsOver (cnt + 1) M = true := fun hp => hov ((stringsOver_spec _ _).1 hp)
+    · rw [if_pos ((hG.strings _ _).2 hov)]; simp; omega
+    · have : ¬ G.stringsOver (cnt + 1) M = true := fun hp => hov ((hG.strings _ _).1 hp)
       rw [if_neg this, ih (cnt + 1) (by omega)]
       omega
 
 /-! ### regular-expression emitter -/
 
-theorem emitSplit_ok (MAX : Nat) (c c' : Emit) (h : emitSplit MAX c = .ok c') :
+theorem emitSplit_ok (MAX : Nat) (c c' : Emit) (h : emitSplit G MAX c = .ok c') :
     c'.split = c.split + 1 ∧ c'.size = c.size + 4 := by
   unfold emitSplit at h
   split at h
   · cases h
   · cases h; exact ⟨rfl, rfl⟩
 
-theorem emitSplit_le (MAX : Nat) (c c' : Emit) (hc : c.split ≤ MAX) (h : emitSplit MAX c = .ok c') :
+theorem emitSplit_le (MAX : Nat) (c c' : Emit) (hc : c.split ≤ MAX) (h : emitSplit G MAX c = .ok c') :
     c'.split ≤ MAX := by
   unfold emitSplit at h
   split at h
   · cases h
   · rename_i hf
     cases h
-    have : c.split ≠ MAX := fun e => hf ((splitFull_spec _ _ hc).2 e)
+    have : c.split ≠ MAX := fun e => hf ((hG.split _ _ hc).2 e)
     simp; omega
 
-theorem emitSplit_err (MAX : Nat) (c : Emit) (e : Err) (hc : c.split ≤ MAX) (h : emitSplit MAX c = .error e) :
+theorem emitSplit_err (MAX : Nat) (c : Emit) (e : Err) (hc : c.split ≤ MAX) (h : emitSplit G MAX c = .error e) :
     e = .reTooComplex ∧ c.split = MAX := by
   unfold emitSplit at h
   split at h
   · rename_i hf
     cases h
-    exact ⟨rfl, (splitFull_spec _ _ hc).1 hf⟩
+    exact ⟨rfl, (hG.split _ _ hc).1 hf⟩
   · cases h
 
-theorem emitSplit_full (MAX : Nat) (c : Emit) (hc : c.split = MAX) : emitSplit MAX c = .error .reTooComplex := by
+theorem emitSplit_full (MAX : Nat) (c : Emit) (hc : c.split = MAX) : emitSplit G MAX c = .error .reTooComplex := by
   unfold emitSplit
-  rw [if_pos ((splitFull_spec _ _ (by omega)).2 hc)]
+  rw [if_pos ((hG.split _ _ (by omega)).2 hc)]
 
 /-! ### fiber pool -/
 
@@ -486,7 +463,7 @@ structure PoolInv (MAX : Nat) (p : Pool) : Prop where
   bound : p.allocated ≤ MAX
   conserve : p.allocated = p.free + p.live
 
-theorem fibStep_inv (MAX : Nat) (p : Pool) (o : FibOp) (h : PoolInv MAX p) : PoolInv MAX (fibStep MAX p o).1 := by
+theorem fibStep_inv (MAX : Nat) (p : Pool) (o : FibOp) (h : PoolInv MAX p) : PoolInv MAX (fibStep G MAX p o).1 := by
   cases o with
   | create =>
     simp only [fibStep]
@@ -495,7 +472,7 @@ theorem fibStep_inv (MAX : Nat) (p : Pool) (o : FibOp) (h : PoolInv MAX p) : Poo
     · split
       · exact h
       · rename_i hfree hfull
-        have hne : p.allocated ≠ MAX := fun e => hfull ((fiberFull_spec _ _ h.bound).2 e)
+        have hne : p.allocated ≠ MAX := fun e => hfull ((hG.fiber _ _ h.bound).2 e)
         exact ⟨by have := h.bound; simp; omega, by have := h.conserve; simp; omega⟩
   | release =>
     simp only [fibStep]
@@ -503,19 +480,19 @@ theorem fibStep_inv (MAX : Nat) (p : Pool) (o : FibOp) (h : PoolInv MAX p) : Poo
     · exact ⟨h.bound, by have := h.conserve; simp; omega⟩
     · exact h
 
-theorem fibRun_inv (MAX : Nat) (ops : List FibOp) (p : Pool) (h : PoolInv MAX p) : PoolInv MAX (fibRun MAX p ops).1 := by
+theorem fibRun_inv (MAX : Nat) (ops : List FibOp) (p : Pool) (h : PoolInv MAX p) : PoolInv MAX (fibRun G MAX p ops).1 := by
   induction ops generalizing p with
   | nil => exact h
-  | cons o os ih => simp only [fibRun]; exact ih _ (fibStep_inv MAX p o h)
+  | cons o os ih => simp only [fibRun]; exact ih _ (fibStep_inv hG MAX p o h)
 
 /-! ### timeout cadence -/
 
 theorem vmReads_eq (N : Nat) (hN : N ≥ 1) (k cycle : Nat) (h : cycle < N) :
-    vmReads N cycle k = (cycle + k) / N := by
+    vmReads G N cycle k = (cycle + k) / N := by
   induction k generalizing cycle with
   | zero => simp [vmReads]; exact (Nat.div_eq_of_lt h).symm
   | succ k ih =>
-    simp only [vmReads, vmTick_spec N cycle h]
+    simp only [vmReads, vmTick_spec hG N cycle h]
     by_cases he : cycle + 1 = N
     · simp only [he, ↓reduceIte]
       rw [ih 0 (by omega)]
